@@ -444,7 +444,86 @@ def getitem(interp: Any, t: TensorV, iv: V, st: State, node: ast.AST | None) -> 
             keep = False
         if keep:
             val = t.val
-    return mk(r[0], t.dtype, r[1], val)
+    offs = _slice_offsets(interp, t, iv, st)
+    if offs is not None and val is None and t.val is not None and len(t.shape) == 1 and ramp_offset(t, st) is not None and offs[0] is not None:
+        val = ((RAMP, st.norm(ramp_offset(t, st) + offs[0])),)  # a slice of a ramp is a ramp that starts later
+    res = mk(r[0], t.dtype, r[1], val)
+    if offs is not None and len(offs) == len(res.shape) and any(o is not None and not (o.as_int() == 0) for o in offs):
+        base = t.off if t.off is not None and len(t.off) == len(t.shape) else None
+        res = TensorV(res.shape, res.dtype, res.lay, res.val, tuple(offs))
+    return res
+
+
+RAMP = "ramp@"
+
+
+def ramp_offset(t: TensorV, st: State) -> Dim | None:
+    """the first value of an integer ramp (``arange(a, b)`` -> a; ``arange(n)`` -> 0), if *t* is one"""
+    if t.val is None or len(t.val) != 1:
+        return None
+    lab, d = t.val[0]
+    if lab == RAMP:
+        return st.norm(d)
+    if lab.startswith("ι#"):
+        return Dim.const(0)
+    return None
+
+
+def _slice_offsets(interp: Any, t: TensorV, iv: V, st: State) -> list[Dim | None] | None:
+    """for an index made of slices / None / Ellipsis only: per *result* axis, where it starts in *t*"""
+    items = _index_items(iv)
+    n_consume = sum(1 for x in items if not isinstance(x, NoneV) and not (isinstance(x, BuiltinV) and x.name == "Ellipsis"))
+    out: list[Dim | None] = []
+    ax = 0
+    base = list(t.off) if t.off is not None and len(t.off) == len(t.shape) else [Dim.const(0)] * len(t.shape)
+    for x in items:
+        if isinstance(x, NoneV):
+            out.append(Dim.const(0))
+        elif isinstance(x, BuiltinV) and x.name == "Ellipsis":
+            k = len(t.shape) - n_consume
+            out.extend(base[ax : ax + k])
+            ax += k
+        elif isinstance(x, TupleV) and x.kind == "slice" and len(x.items) == 3:
+            start, _stop, step = x.items
+            if not isinstance(step, NoneV):
+                return None
+            if isinstance(start, NoneV):
+                o: Dim | None = Dim.const(0)
+            else:
+                d = getd(start, st)
+                if d is None:
+                    o = None
+                else:
+                    d = st.norm(d)
+                    if st.decide(d, ">=") is True:
+                        o = d
+                    elif st.decide(d, "<") is True:
+                        o = st.norm(t.shape[ax] + d)
+                    else:
+                        o = None
+            b = base[ax]
+            out.append(None if o is None or b is None else st.norm(b + o))
+            ax += 1
+        else:
+            return None
+    out.extend(base[ax:])
+    return out
+
+
+def note_ramp_product(interp: Any, l: V, r: V, st: State, node: ast.AST | None) -> None:
+    """``coeff_slice * ramp`` : remember (where the slice starts on its last axis, the ramp's first value)"""
+    sink = getattr(interp, "ramp_products", None)
+    if sink is None or not (isinstance(l, TensorV) and isinstance(r, TensorV)):
+        return
+    for a, b in ((l, r), (r, l)):
+        ro = ramp_offset(b, st)
+        if ro is None or len(b.shape) != 1 or not a.shape:
+            continue
+        if ramp_offset(a, st) is not None:
+            continue
+        so = a.off[-1] if a.off is not None and len(a.off) == len(a.shape) else Dim.const(0)
+        sink.append((so, ro, node, st.norm(a.shape[-1]), st.norm(b.shape[0])))
+        return
 
 
 def setitem(interp: Any, t: TensorV, iv: V, val: V, st: State, node: ast.AST | None) -> None:
@@ -797,6 +876,8 @@ def tensor_op(interp: Any, op: str, args: list[V], kwargs: dict[str, V], st: Sta
         if len(ds) == 1 and n is not None and not st.norm(n).is_const():
             at = L.fresh_atom("ι", st.norm(n))
             return TensorV((n,), "int", ((at,),), (at,))
+        if len(ds) == 2 and n is not None:
+            return TensorV((n,), "int", None, ((RAMP, st.norm(ds[0])),))  # values ds[0], ds[0]+1, ..
         return TensorV((n,), "int")  # type: ignore[arg-type]
     if op == "tensor" or op == "as_tensor":
         def shp_of(v: V) -> Shape | None:
@@ -878,7 +959,8 @@ def tensor_op(interp: Any, op: str, args: list[V], kwargs: dict[str, V], st: Sta
             interp.copies.append((t, rest[0]))
         return TensorV(t.shape, t.dtype, rest[0].lay if rest[0].lay is not None and len(rest[0].shape) == len(t.shape) else t.lay)
     if op in ELEMENTWISE:
-        return TensorV(t.shape, t.dtype if op in ("clone", "contiguous", "detach", "cpu", "cuda", "to", "type") else "float", t.lay)
+        keeps = op in ("clone", "contiguous", "detach", "cpu", "cuda", "to", "type", "float", "double", "half")
+        return TensorV(t.shape, t.dtype if op in ("clone", "contiguous", "detach", "cpu", "cuda", "to", "type") else "float", t.lay, t.val if keeps else None, t.off if keeps else None)
     if op in TO_INT:
         return TensorV(t.shape, "int", t.lay)
     if op in TO_BOOL:
